@@ -113,6 +113,7 @@ package reftable
 // block.go: reading blocks
 // ---------------------------------------------------------------------------------------------
 
+//@ spec u24at(b []byte, o int) int = b[o]*65536 + b[o+1]*256 + b[o+2]
 //@ spec wfBR(br *blockReader) bool = br != nil && br.headerOff + 4 <= len(br.block) && len(br.block) < 16777216 && br.headerOff <= 28 && len(br.restartBytes) == 3*br.restartCount + 2 && (br.hashSize == 20 || br.hashSize == 32) && br.fullBlockSize > 0
 //@ spec typeOK(br *blockReader) bool = br.block[br.headerOff] == 'g' || br.block[br.headerOff] == 'i' || br.block[br.headerOff] == 'r' || br.block[br.headerOff] == 'o'
 //@ spec wfBI(bi *blockIter) bool = bi != nil && wfBR(bi.br)
@@ -389,6 +390,10 @@ package reftable
 //@   ensures result1 == nil ==> result0.block[headerOff] == old(block[headerOff]) && len(block) >= headerOff + 4
 //@   ensures result1 == nil ==> typeOK(result0)
 //@   ensures result1 != nil ==> result0 == nil
+// C01 (block-to-block step of a scan), from the format: a ref/obj/index block occupies the table's block size when it
+// is followed by zero padding (or fills the block), and exactly its own length when the table is unaligned or the next
+// block follows immediately (the byte behind it is a block type, not padding).
+//@   ensures[distance-to-the-next-block-by-the-format] {C01} result1 == nil && old(block[headerOff]) != 'g' ==> result0.fullBlockSize == ((tableBlockSize == 0 || (u24at(block, headerOff + 1) < tableBlockSize && u24at(block, headerOff + 1) < len(block) && old(block[u24at(block, headerOff + 1)]) != 0)) ? u24at(block, headerOff + 1) : tableBlockSize)
 
 //@ func (*blockReader).getType
 //@   props C18 C19
